@@ -614,6 +614,52 @@ def rule_cursor(ctx, f):
     ctx.floor("C02-G4", n, 1, "subsection loops with a data cursor")
 
 
+# ----------------------------------------------------------------------------- G5
+def rule_columns(ctx, f):
+    ctx.rule("C02-SIB-table", "classic table reader: of the three tokens of an entry the first is the offset (in use) / next free number (free), the "
+             "second the generation, for both kinds of entry; the newest trailer is not touched up with entries of older ones")
+    rd = [b for b in f.bodies.values() if call_sites(b, lambda n, t: last_seg(n) in ("add_free_entry", "add_inuse_entry"))
+          and call_sites(b, lambda n, t: last_seg(n) == "next" and "Lexer" in n)]
+    if not ctx.floor("C02-SIB-table", len(rd), 1, "classic xref table reader (add_free_entry / add_inuse_entry)"):
+        return
+    n = 0
+    for b in rd:
+        cfg = CFG(b)
+        fl = Flow(b)
+        for bi, t in call_sites(b, lambda nm, t: last_seg(nm) in ("add_free_entry", "add_inuse_entry")):
+            n += 1
+            srcs = []
+            for k in (1, 2):
+                l = arg_local(t, k)
+                srcs.append(sorted({a[2] for a in fl.origins(l) if a[0] == "call" and last_seg(a[1]) == "next" and "Lexer" in a[1]}) if l is not None else [])
+            ok = len(srcs[0]) == 1 and len(srcs[1]) == 1 and srcs[0] != srcs[1] and cfg.dominates(srcs[0][0], srcs[1][0])
+            ctx.check(ok, "C02-SIB-table", "%s#%s-columns" % (b["id"], last_seg(F.callee_name(t))), "the arguments of %s are not (first token, second token) of the entry: "
+                      "the generation and the offset / next-free number trade places, and precedence between revisions is decided on the wrong number"
+                      % last_seg(F.callee_name(t)), t["span"], detail="(token 1, token 2 = generation)")
+    ctx.floor("C02-SIB-table", n, 2, "entry constructions of the classic reader")
+    # the trailer that is handed back is the newest section's, untouched: nothing in the /Prev walk writes into it
+    for b in f.bodies.values():
+        reads = call_sites(b, lambda nm, t: last_seg(nm) == "read_xref_and_trailer_at")
+        if len(reads) < 2:
+            continue
+        cfg = CFG(b)
+        fl = Flow(b)
+        loops = cfg.loops()
+        first = [c for c in reads if not any(c[0] in blk for blk in loops.values())]
+        if not first:
+            continue
+        muts = []
+        for bi, t in F.calls(b):
+            if last_seg(F.callee_name(t)) in ("insert", "extend", "append", "remove", "clear", "retain", "entry") and t["arg_tys"] and t["arg_tys"][0]["k"] == "refmut" and \
+                    "Dictionary" in t["arg_tys"][0]["s"]:
+                l = arg_local(t, 0)
+                if l is not None and any(a[0] == "call" and a[2] == first[0][0] for a in fl.origins(l)):
+                    muts.append(t)
+        ctx.check(not muts, "C02-SIB-table", b["id"] + "#trailer-untouched", "the trailer of the newest section is modified while older sections are read (%s): entries an "
+                  "update removed by leaving them out (say /Info) come back from an older revision" % ", ".join(sorted({last_seg(F.callee_name(t)) for t in muts})),
+                  muts[0]["span"] if muts else b["span"], detail="no insert / extend / remove on the first trailer")
+
+
 def run(ctx):
     f = F.load("default")
     ctx.count("bodies", len(f.bodies))
@@ -623,6 +669,7 @@ def run(ctx):
     rule_typebytes(ctx, f)
     rule_lookup(ctx, f)
     rule_cursor(ctx, f)
+    rule_columns(ctx, f)
     return ctx.finish(
         "Static analysis of MIR facts (mirx) of crate pdf: merge-precedence table extracted by enumerating the CFG paths of one "
         "merge iteration per variant of the existing entry and compared with the newest-first rule; provenance of section "
